@@ -306,8 +306,10 @@ theorem libCall_succ {d : Nat} (ih : LibP Q cx call ρ d) (name : String) (args 
     cases r <;> cases r' <;> simp only [RRel] at hr ⊢
     · obtain ⟨β', hle, hv, hs⟩ := hr
       exact ⟨β', hle, .cons rfl hv, hs⟩
+    · exact hr
     · obtain ⟨β', hle, hv, hs⟩ := hr
       exact ⟨β', hle, .cons rfl (.cons hv .nil), hs⟩
+    · exact hr
     · exact hr
     · exact hr
   · -- error
